@@ -10,7 +10,7 @@ Transcribed code
 * /repo/src/scripts/repl_server.py: `MessageStream.recv_msg` / `_recv_exact` (`pyRecvMsg`, as repaired by the `fix:` commit:
   loop until the 3 header bytes, then until `3 + data_len` bytes are buffered), `MessageStream.send_msg` (`pyFrame`, `pySend`:
   `len.to_bytes(2, 'big')` raises OverflowError above 65535; `sendall`), the dispatch of the server's main loop
-  (`serverHandle`). `legacyPyRecvMsg` / `legacyPySend` are the functions as they were at the pinned commit (one
+  (`serverHandle`) and the loop itself (`serverLoop`). `legacyPyRecvMsg` / `legacyPySend` are the functions as they were at the pinned commit (one
   `socket.recv` per field, one `socket.send`); they are kept so that the old defect stays machine-checked (Props:
   `C25_witness_split_header`, `C25_witness_short_send`).
 
@@ -279,6 +279,28 @@ def runHistory (ev : Eval) : LState → List Bytes → List StepRes
 def specHistory (ev : Eval) : List (Nat × Bytes) → List Bytes → List (Nat × Bytes)
   | _, [] => []
   | hist, s :: rest => ev hist 6 s :: specHistory ev (hist ++ [(6, s)]) rest
+
+/-! ### the server's main loop -/
+
+inductive ServerEnd where
+  | normal                 -- `break`: EXIT handled, or the connection was closed (ConnectionResetError is caught)
+  | died (e : PyErr)       -- an exception left the loop (UnicodeDecodeError in `recv_msg`, OverflowError in `send_msg`)
+  | outOfFuel
+  deriving DecidableEq, Repr
+
+/-- `while True: inst, data = recv_msg() …` of repl_server.py on one connection: everything the server writes, and how it ends.
+    Every iteration consumes at least the 3 header bytes, so fuel `in-flight bytes + 1` suffices. -/
+def serverLoop (ev : Eval) : Nat → Sock → WSock → List (Nat × Bytes) → WSock × ServerEnd
+  | 0, _, w, _ => (w, .outOfFuel)
+  | fuel+1, c2s, w, hist =>
+    match pyRecvMsg c2s with
+    | (.err .connReset, _) => (w, .normal)
+    | (.err e, _) => (w, .died e)
+    | (.ok inst text, c2s') =>
+      let (resp, hist') := serverHandle ev hist inst text
+      match pySend w resp.1 resp.2 with
+      | .error e => (w, .died e)
+      | .ok w' => if inst = 5 then (w', .normal) else serverLoop ev fuel c2s' w' hist'
 
 /-! ### class of the recorded finding -/
 
